@@ -1785,6 +1785,9 @@ class Evaluator:
             v = self._record_get(base, attr=n.attr)
             if v is not None:
                 return v
+            bm = self._bound_method_value(base, n) if base[0] == "call" else None
+            if bm is not None:
+                return bm
         if base in self.rec_types:
             v = self._typed_get(base, self.rec_types[base], n.attr)
             if v is not None:
@@ -1811,6 +1814,35 @@ class Evaluator:
             if v is not None:
                 return v
         return ("attr", base, n.attr)
+
+    def _bound_method_value(self, base, n):
+        """`rec.method` handed on as a value (not called on the spot), rec a record whose fields are known: the local function that
+        method is once `self` is fixed"""
+        if id(n) in getattr(self, "_callee_nodes", ()) or len(self.inline_stack) >= 4:
+            return None
+        ci = self.index.class_by_qual(base[1][1])
+        if ci is None or n.attr not in ci.methods:
+            return None
+        node = pick_def(ci.methods[n.attr])
+        if not isinstance(node, ast.FunctionDef) or node.decorator_list or not node.args.args or node.args.posonlyargs:
+            return None
+        import copy
+        fn = copy.deepcopy(node)
+        selfname = fn.args.args[0].arg
+        fn.args.args = fn.args.args[1:]
+        lid = self.fresh("F")
+        try:
+            sub = Evaluator(self.index, ci.module, fn, f"{ci.qual}.{n.attr}", ci, {selfname: base})
+            sub.inline_stack = self.inline_stack + (f"{ci.qual}.{n.attr}",)
+            sub._n = self._n
+            sub.lambdas = dict(self.lambdas)
+            ls = sub.run()
+        except (AnalysisError, RecursionError):
+            return None
+        self.lambdas[lid] = ls
+        self._n = sub._n
+        self.inlined += list(ls.inlined)
+        return ("lambda", lid)
 
     def _class_constant(self, name):
         """self.<name> where <name> is a class-level table of constants (a display of constant strings / numbers / tuples of them)
@@ -2161,6 +2193,7 @@ class Evaluator:
         self.emit("yield", live, ("yieldfrom", t), n)
 
     def e_Call(self, n, live):
+        self._callee_nodes = getattr(self, "_callee_nodes", set()) | {id(n.func)}
         f = self.ev(n.func, live)
         args = []
         for a in n.args:
@@ -3111,7 +3144,7 @@ class Evaluator:
             return None
         return module, node, f"{modname}:{fname}" + ("@reference" if force else ""), cls, selfterm
 
-    def _prepare_inline(self, f, call_term, generator_ok=False):
+    def _prepare_inline(self, f, call_term, generator_ok=False, search_ok=False):
         """Resolve, summarise and instantiate a helper call: -> (callee summary, inst(term), id map, qual) or None.
         Registers the callee's loops / tries / lambdas (renamed) in this evaluator."""
         if f[0] == "lambda" and f[1] in self.lambdas and self.lambdas[f[1]].is_generator:
@@ -3185,7 +3218,7 @@ class Evaluator:
                 if p not in cs.defaults:
                     return None
                 bound[("param", p)] = cs.defaults[p]
-        if any(r.loops for r in cs.returns) and not (generator_ok and cs.is_generator):
+        if any(r.loops for r in cs.returns) and not (generator_ok and cs.is_generator) and not (search_ok and _search_helper_shape(cs) is not None):
             return None  # a return from inside a loop has no value term (in a generator it ends the iteration: see _splice_generator)
         self._n += 1
         tag = f"i{self._n}"
@@ -3322,10 +3355,12 @@ class Evaluator:
             ev_ = self.emit("call", live, al_, n)
             ev_.kw_order = []  # type: ignore[attr-defined]
             return al_
-        prep = self._prepare_inline(f, call_term) if self._inline_target(f) is not None else None
+        prep = self._prepare_inline(f, call_term, search_ok=True) if self._inline_target(f) is not None else None
         if prep is None:
             return None
         cs, inst, idmap, qual = prep
+        if any(r.loops for r in cs.returns) and not cs.is_generator:
+            return self._search_helper_as_next(cs, inst, idmap, qual, live)
         if cs.is_generator and not yield_from:
             # a helper generator is spliced where it is consumed (yield from / a for loop); elsewhere (next(...), list(...))
             # a simple one -- a single filtered loop around one yield -- is the generator expression it abbreviates
@@ -3373,6 +3408,33 @@ class Evaluator:
             v = retype(v)
         return v
 
+    def _search_helper_as_next(self, cs, inst, idmap, qual, live):
+        """`def find(k): for row in T: if c(row, k): return v(row)` followed by `raise E(...)` (or `return d`): the call is
+        next((v(row) for row in T if c(row, k)), <no match>) and the helper's closing raise fires where that is <no match>"""
+        shape = _search_helper_shape(cs)
+        if shape is None:
+            return None
+        ret, lid0, tail = shape
+        self._register_inlined(cs, inst, idmap)
+        nl = idmap[lid0]
+        self.loops[nl].kind = "comp"
+        for e in cs.events:
+            if e.kind == "call" and lid0 in e.loops:
+                self._reemit(e, live, inst, idmap, qual)
+        conds = tuple(c for c in conjuncts(inst(ret.live)) if c != ("inloop", nl))
+        self.loops[nl].conds = conds
+        self.inlined.append(qual)
+        tail_ret = [e for e in tail if e.kind == "return"]
+        default = inst(tail_ret[0].term) if tail_ret else NO_MATCH
+        v = ("call", ("builtin", "next"), (("comp", "gen", inst(ret.term), ((nl, self.loops[nl].iter, conds),)), default), ())
+        ev = self.emit("call", live, v, ret.node)
+        ev.kw_order = []  # type: ignore[attr-defined]
+        if not tail_ret:
+            miss = ("cmp", "is", v, NO_MATCH)
+            for e in tail:
+                self._reemit(e, AND(live, miss), inst, idmap, qual)
+        return v
+
     def _generator_as_genexp(self, cs, inst, idmap, qual, live):
         ys = cs.yields
         if len(ys) != 1 or len(ys[0].loops) != 1 or ys[0].term[0] == "yieldfrom":
@@ -3381,7 +3443,11 @@ class Evaluator:
         lid0 = y.loops[0]
         if cs.loops[lid0].kind != "for" or any(e.kind not in ("call", "continue", "yield", "return") for e in cs.events):
             return None
-        if any(e.kind == "call" and lid0 not in e.loops for e in cs.events) or any(e.idx > y.idx and e.kind == "call" for e in cs.events):
+        # in front of the loop only what builds its iterable: zip / enumerate / range / len / sorted / reversed of the arguments
+        if any(e.kind == "call" and lid0 not in e.loops and not (
+                e.idx < y.idx and not e.loops and e.term[0] == "call" and e.term[1][0] == "builtin"
+                and e.term[1][1] in ("zip", "enumerate", "range", "len", "sorted", "reversed", "list", "tuple")) for e in cs.events) \
+                or any(e.idx > y.idx and e.kind == "call" for e in cs.events):
             return None
         self._register_inlined(cs, inst, idmap)
         nl = idmap[lid0]
@@ -4079,6 +4145,37 @@ def _splice_stars(t):
     return t
 
 
+NO_MATCH = ("global", "<no match>", "sentinel")  # the default of the next(...) a search helper is read as: equal to nothing else
+
+
+def _search_helper_shape(cs):
+    """(the return inside the loop, loop id, events after the loop) of a function that is one `for` loop returning its first match,
+    then one unconditional ending: a raise (with the calls building the exception) or a return of a value; None = another shape"""
+    rets = [r for r in cs.raw_returns if isinstance(r.node, ast.Return)]
+    inl = [r for r in rets if r.loops]
+    if len(inl) != 1 or len(inl[0].loops) != 1 or cs.is_generator or cs.tries:
+        return None
+    ret = inl[0]
+    lid0 = ret.loops[0]
+    li = cs.loops.get(lid0)
+    if li is None or li.kind != "for" or getattr(li, "has_else", False) or len([l for l in cs.loops.values() if l.kind == "for"]) != 1:
+        return None
+    if any(e.kind not in ("call", "return", "raise") for e in cs.events):
+        return None
+    first_loop = min((e.idx for e in cs.events if lid0 in e.loops), default=None)
+    if first_loop is None or any(e.idx < first_loop and not e.loops for e in cs.events):
+        return None  # work in front of the loop
+    if any(lid0 in e.loops and e.kind == "raise" for e in cs.events) or any(lid0 in e.loops and e.idx > ret.idx for e in cs.events):
+        return None
+    tail = [e for e in cs.events if lid0 not in e.loops and e.idx > ret.idx and not e.loops]
+    enders = [e for e in tail if e.kind in ("raise", "return")]
+    if len(enders) != 1 or enders[0] is not tail[-1] or any(e.live != TRUE for e in tail):
+        return None
+    if enders[0].kind == "return" and any(e.kind == "call" for e in tail):
+        return None
+    return ret, lid0, tail
+
+
 def fold_sub(t):
     """`(a, b)[0]` -> a and `getattr(x, "name")` -> x.name after a substitution made the container / name explicit."""
     if not isinstance(t, tuple) or not t:
@@ -4109,6 +4206,14 @@ def fold_sub(t):
         r_ = mk_cmp(t[1], t[2], t[3])
         if r_[0] == "const":
             return TRUE if r_[1] else FALSE
+    if t and t[0] == "comp" and len(t) == 4 and len(t[3]) == 1 and not t[3][0][2] and t[3][0][1][0] in ("tuple", "list") \
+            and 0 < len(t[3][0][1][1]) <= (32 if t[1] == "dict" else 8) and not any(x[0] == "star" for x in t[3][0][1][1]):
+        # {d: c[d] for d in (x, y)} with the display substituted for a parameter of a helper: the display of the instances
+        items_ = [fold_sub(subst(t[2], {("elem", t[3][0][0]): item})) for item in t[3][0][1][1]]
+        if t[1] == "dict" and all(i_[0] == "kv" for i_ in items_):
+            return ("dict", tuple((i_[1], i_[2]) for i_ in items_))
+        if t[1] in ("list", "set", "gen"):
+            return ("tuple" if t[1] == "gen" else t[1], tuple(items_))
     if t and t[0] == "call" and t[1] in (("builtin", "any"), ("builtin", "all")) and len(t) >= 4 and not t[3] and len(t[2]) == 1:
         a_ = t[2][0]
         # any(c(x) for x in (a, b)) with the display substituted for a `*values` parameter
